@@ -25,6 +25,7 @@ type Frame struct {
 	defers   []deferred
 	rets     []retInfo
 	loops    map[*ssa.BasicBlock]*loopInfo
+	clausePkg string // package of the contract clause being evaluated
 	ranges   map[ssa.Value]string // Range instr -> seen-set state key
 	paramEnv map[string]Val
 	curBlock *ssa.BasicBlock
